@@ -334,6 +334,10 @@ func c13(r *ev.Result, tier string) {
 	}
 	r.Sample(6, map[string]any{"single": c13Call{Server: "C", Pin: "pinA"}, "expected": "ok (the chain's second certificate carries key A)"})
 
+	/* (a') the same verdicts under other process-wide HTTP settings. */
+	c13Proxied(r, w, id)
+	checkDefaults("after the proxied calls (the harness restored what it had changed)")
+
 	/* (b) */
 	menu := []c13Call{{"A", "pinA"}, {"B", "pinA"}, {"B", "pinB"}, {"A", "pinB"}, {"A", "none"}, {"C", "pinA"}, {"I", "pinA"}}
 	var hists [][]c13Call
